@@ -80,6 +80,29 @@ def finish (r : GStore × Option Entries) : GStore × Option GVal :=
   | none => (r.1, none)
   | some out => ((galloc r.1 out).1, some (.ref (galloc r.1 out).2))
 
+/-- an unknown key of an object input -/
+def unknownStep (mode : ObjMode) (σ : GStore) (p : Nat × GVal) : StepRes :=
+  match mode with
+  | .strip => (σ, some none)
+  | .loose => (σ, some (some p))
+  | .strict => (σ, none)
+
+/-- types/object.go validateObject, one entry: a field of the shape is VALIDATED by its schema (`validateField` drops what
+    the member's Parse returns) and the caller's value is stored (`result[name] = val`) -/
+def objStep (mode : ObjMode) (fields : List Nat) (pk : Nat → GStore → GVal → GStore × Option GVal)
+    (σ : GStore) (p : Nat × GVal) : StepRes :=
+  if fields.contains p.1 then ((pk p.1 σ p.2).1, (pk p.1 σ p.2).2.map (fun _ => some p)) else unknownStep mode σ p
+
+/-- types/slice.go validateSlice / types/record.go, one element: validated, nothing collected -/
+def valStep (pk : GStore → GVal → GStore × Option GVal) (σ : GStore) (p : Nat × GVal) : StepRes :=
+  ((pk σ p.2).1, (pk σ p.2).2.map (fun _ => none))
+
+/-- `return validated`: when every element passed, the caller's container ITSELF is the result -/
+def validated (r : GStore × Option Entries) (v : GVal) : GStore × Option GVal :=
+  match r.2 with
+  | some _ => (r.1, some v)
+  | none => (r.1, none)
+
 /-- Parse of the value `v` with the schema; `none` = refused. -/
 def parseS : GSchema → GStore → GVal → GStore × Option GVal
   | .any, σ, v => (σ, some v)
@@ -102,34 +125,20 @@ def parseS : GSchema → GStore → GVal → GStore × Option GVal
     match v with
     | .ref l =>
       if isMapCell (readG σ.heap l) && fields.all (fun k => (readG σ.heap l).any (fun p => p.1 == k)) then
-        finish (foldEntries (fun σ p =>
-          if fields.contains p.1 then
-            -- validateField: the member schema only VALIDATES; `result[name] = val` stores the caller's value
-            ((parseS (kids p.1) σ p.2).1, (parseS (kids p.1) σ p.2).2.map (fun _ => some p))
-          else match mode with
-            | .strip => (σ, some none)
-            | .loose => (σ, some (some p))
-            | .strict => (σ, none)) (readG σ.heap l) σ)
+        finish (foldEntries (objStep mode fields (fun k => parseS (kids k))) (readG σ.heap l) σ)
       else (σ, none)
     | _ => (σ, none)
   | .slice t, σ, v =>
     match v with
     | .ref l =>
-      if isSliceCell (readG σ.heap l) then
-        -- validateSlice: every element is validated; `return validated` is the caller's slice itself
-        match (foldEntries (fun σ p => ((parseS t σ p.2).1, (parseS t σ p.2).2.map (fun _ => none))) (readG σ.heap l) σ).2 with
-        | some _ => ((foldEntries (fun σ p => ((parseS t σ p.2).1, (parseS t σ p.2).2.map (fun _ => none))) (readG σ.heap l) σ).1, some v)
-        | none => ((foldEntries (fun σ p => ((parseS t σ p.2).1, (parseS t σ p.2).2.map (fun _ => none))) (readG σ.heap l) σ).1, none)
+      if isSliceCell (readG σ.heap l) then validated (foldEntries (valStep (parseS t)) (readG σ.heap l) σ) v
       else (σ, none)
     | _ => (σ, none)
   | .record t, σ, v =>
     match v with
     | .ref l =>
-      if isMapCell (readG σ.heap l) then
-        -- validateRecord with a key schema that rewrites nothing: the caller's map itself comes back
-        match (foldEntries (fun σ p => ((parseS t σ p.2).1, (parseS t σ p.2).2.map (fun _ => none))) (readG σ.heap l) σ).2 with
-        | some _ => ((foldEntries (fun σ p => ((parseS t σ p.2).1, (parseS t σ p.2).2.map (fun _ => none))) (readG σ.heap l) σ).1, some v)
-        | none => ((foldEntries (fun σ p => ((parseS t σ p.2).1, (parseS t σ p.2).2.map (fun _ => none))) (readG σ.heap l) σ).1, none)
+      -- (a key schema that rewrites no key: types.String())
+      if isMapCell (readG σ.heap l) then validated (foldEntries (valStep (parseS t)) (readG σ.heap l) σ) v
       else (σ, none)
     | _ => (σ, none)
   | .union a b, σ, v =>
@@ -139,5 +148,34 @@ def parseS : GSchema → GStore → GVal → GStore × Option GVal
       match (parseS a σ v).2 with
       | some r => ((parseS a σ v).1, some r)
       | none => parseS b (parseS a σ v).1 v
+
+/-! ### a caller's history (what the harness class `own` runs)
+
+    parse j i   the caller builds a NEW value equal to input `i` (an equal document decoded again: `copy`) and parses it
+                with schema `j` of the family; the result (or the refusal) is recorded
+    mutate k    deep in-place mutation of everything reachable from the k-th result -/
+
+inductive CStep where
+  | parse (j i : Nat)
+  | mutate (k : Nat)
+
+structure CState where
+  σ : GStore
+  results : List (Option GVal)
+
+def stepC (fam : List GSchema) (ins : List GVal) (st : CState) : CStep → CState
+  | .parse j i =>
+    match fam[j]?, ins[i]? with
+    | some s, some v =>
+      { σ := (parseS s (copy true gdepth st.σ v).1 (copy true gdepth st.σ v).2).1,
+        results := st.results ++ [(parseS s (copy true gdepth st.σ v).1 (copy true gdepth st.σ v).2).2] }
+    | _, _ => st
+  | .mutate k =>
+    match st.results[k]? with
+    | some (some v) => { st with σ := mutateAll st.σ v }
+    | _ => st
+
+def runC (fam : List GSchema) (ins : List GVal) (st : CState) (steps : List CStep) : CState :=
+  steps.foldl (stepC fam ins) st
 
 end Gozod.Graph
